@@ -257,6 +257,8 @@ class NullAnalysis:
             return
         if is_debug_assert(t['span']):
             return
+        if any(s2 not in b.cfg.can_return for s2 in b.cfg.succ[bb]):
+            return      # assertion (one side only panics): exists in one configuration only, never refine on it
         d = strip(b.switch_discr[bb])
         if d.kind != 'bin' or d.args[0] not in ('Eq', 'Ne'):
             return
